@@ -405,7 +405,7 @@ NONMUT = {'add': lambda a, b: a + b, 'sub': lambda a, b: a - b, 'mul': lambda a,
 FAULT_COQ = {'readonly': 'FReadonly', 'type': 'FType', 'units': 'FUnits', 'numer': 'FNumer', 'denom': 'FDenom',
              'kind': 'FKind', 'shape': 'FShape', 'derivdenom': 'FDerivDenom'}
 OPFAM = {'iadd': 'OAdd', 'isub': 'OAdd', 'imul': 'OMul', 'set_int': 'OSet', 'set_slice': 'OSet',
-         'set_mask': 'OSetMask', 'set_ellipsis': 'OSetAll', 'set_array': 'OSet'}
+         'set_mask': 'OSetMask', 'set_ellipsis': 'OSet', 'set_array': 'OSet'}
 FORM_COQ = {'number': 'ANumber', 'ndarray': 'ANdarray', 'object': 'AObject'}
 ERR_COQ = {'TypeError': 'TypeErr', 'ValueError': 'ValueErr', 'IndexError': 'IndexErr'}
 
